@@ -59,6 +59,8 @@ struct Member {
     client: Option<RawClient>,
     id: u32,
     joined: bool,
+    /// member of the twin group (same topic id and group id in another stream) on its current connection
+    twin: bool,
     /// partition ids returned to this member since the last membership / partition-count event
     walk: Vec<u32>,
 }
@@ -84,6 +86,15 @@ pub struct GWorld {
     by: Option<RawClient>,
     by_id: u32,
     delivered2: BTreeMap<u32, u64>,
+    /// half of the histories: a second stream holds a topic and a group with the SAME numeric ids (topic 4, group 6); a member joins
+    /// that twin group before the main one and stays in it until its connection goes away. Membership bookkeeping keyed by less
+    /// than (stream, topic, group) then shows as a ghost member in one of the two groups after a disconnect.
+    twin: bool,
+}
+
+const TWIN_PARTS: u32 = 3;
+fn twin_sid() -> Identifier {
+    Identifier::numeric(3).unwrap()
 }
 
 fn two() -> Identifier {
@@ -129,7 +140,48 @@ impl GWorld {
         self.members[c].client = Some(cl);
         self.members[c].id = me.client_id;
         self.members[c].joined = false;
+        self.members[c].twin = false;
         self.members[c].walk.clear();
+        Ok(())
+    }
+
+    /// the twin group (stream 3, topic 4, group 6) lists exactly the connected members that joined it, and splits its partitions among them
+    async fn check_twin(&mut self, why: &'static str, wait_for_disconnect: bool) -> R<()> {
+        let expected: BTreeSet<u32> = self.members.iter().filter(|m| m.twin && m.client.is_some()).map(|m| m.id).collect();
+        let mut tries = 0;
+        let gd = loop {
+            let gd = match timed("get_group", self.ctl.get_consumer_group(&twin_sid(), &tid(), &g1())).await? {
+                Ok(Some(g)) => g,
+                other => return Err(Stop::Inconclusive(format!("get_consumer_group twin: {other:?}"))),
+            };
+            let got: BTreeSet<u32> = gd.members.iter().map(|m| m.id).collect();
+            if got == expected || !wait_for_disconnect || tries >= 1000 {
+                break gd;
+            }
+            tries += 1;
+            tokio::time::sleep(Duration::from_millis(5)).await;
+        };
+        let got: BTreeSet<u32> = gd.members.iter().map(|m| m.id).collect();
+        self.eval("C08:members-listed");
+        if got != expected || gd.members_count as usize != expected.len() {
+            let stale: Vec<_> = got.difference(&expected).collect();
+            let d = json!({"why": why, "group": "twin (stream 3, topic 4, group 6)", "members_listed": got, "expected": expected, "members_count": gd.members_count, "retries": tries});
+            let trig = if !stale.is_empty() { "left-or-disconnected-member-still-listed" } else { "member-missing" };
+            return Err(gv(self, "members-listed", &format!("{trig}/twin-group/{why}"), d));
+        }
+        if !expected.is_empty() {
+            self.eval("C08:exclusive-and-complete");
+            let mut all: Vec<u32> = gd.members.iter().flat_map(|m| m.partitions.clone()).collect();
+            all.sort();
+            let want: Vec<u32> = (1..=TWIN_PARTS).collect();
+            let sizes: Vec<usize> = gd.members.iter().map(|m| m.partitions.len()).collect();
+            let (mn, mx) = (sizes.iter().min().copied().unwrap_or(0), sizes.iter().max().copied().unwrap_or(0));
+            if all != want || gd.partitions_count != TWIN_PARTS || mx - mn > 1 {
+                let d = json!({"why": why, "group": "twin (stream 3, topic 4, group 6)", "shares": gd.members.iter().map(|m| (m.id, m.partitions.clone())).collect::<Vec<_>>(), "partitions_count": gd.partitions_count});
+                return Err(gv(self, "exclusive-and-complete", "twin-group-disturbed", d));
+            }
+        }
+        self.event("twin_group_checked");
         Ok(())
     }
 
@@ -210,6 +262,9 @@ impl GWorld {
                 return Err(gv(self, "exclusive-and-complete", "second-group-disturbed", d));
             }
         }
+        if self.twin {
+            self.check_twin(why, wait_for_disconnect).await?;
+        }
         Ok(())
     }
 
@@ -267,6 +322,14 @@ impl GWorld {
                 if self.members[c].client.is_none() {
                     return Ok(());
                 }
+                if self.twin && !self.members[c].twin {
+                    let r = timed("join", self.members[c].client.as_ref().unwrap().join_consumer_group(&twin_sid(), &tid(), &g1())).await?;
+                    if let Err(e) = r {
+                        return Err(gv(self, "valid-refused", "join-twin-group", json!({"error": e.to_string()})));
+                    }
+                    self.members[c].twin = true;
+                    self.event("join_twin_group");
+                }
                 let r = timed("join", self.members[c].client.as_ref().unwrap().join_consumer_group(&sid(), &tid(), &g1())).await?;
                 if let Err(e) = r {
                     return Err(gv(self, "valid-refused", "join", json!({"error": e.to_string()})));
@@ -296,6 +359,10 @@ impl GWorld {
                 let was = self.members[c].joined;
                 self.members[c].client = None;
                 self.members[c].joined = false;
+                if self.members[c].twin {
+                    self.event("twin_member_disconnected");
+                }
+                self.members[c].twin = false;
                 if was {
                     self.event("member_disconnected");
                     self.shape.push("disconnect_member");
@@ -533,7 +600,7 @@ async fn history(hseed: u64, cache: CacheMode, replay_ops: Option<(u32, usize, V
         hist: hseed,
         inst,
         ctl,
-        members: (0..nmem).map(|_| Member { client: None, id: 0, joined: false, walk: vec![] }).collect(),
+        members: (0..nmem).map(|_| Member { client: None, id: 0, joined: false, twin: false, walk: vec![] }).collect(),
         parts,
         sent: (1..=parts).map(|p| (p, vec![])).collect(),
         delivered: (1..=parts).map(|p| (p, 0)).collect(),
@@ -547,6 +614,7 @@ async fn history(hseed: u64, cache: CacheMode, replay_ops: Option<(u32, usize, V
         by: None,
         by_id: 0,
         delivered2: (1..=parts).map(|p| (p, 0)).collect(),
+        twin: hseed % 2 == 0,
     };
     let res: R<()> = async {
         timed("login", w.ctl.login_user("iggy", "iggy")).await?.map_err(|e| Stop::Inconclusive(e.to_string()))?;
@@ -555,6 +623,13 @@ async fn history(hseed: u64, cache: CacheMode, replay_ops: Option<(u32, usize, V
             .await?
             .map_err(|e| Stop::Inconclusive(e.to_string()))?;
         timed("create_group", w.ctl.create_consumer_group(&sid(), &tid(), "ggroup", Some(6))).await?.map_err(|e| Stop::Inconclusive(e.to_string()))?;
+        if w.twin {
+            timed("create_stream", w.ctl.create_stream("gtwin", Some(3))).await?.map_err(|e| Stop::Inconclusive(e.to_string()))?;
+            timed("create_topic", w.ctl.create_topic(&twin_sid(), "gtopic", TWIN_PARTS, CompressionAlgorithm::None, None, Some(4), IggyExpiry::NeverExpire, MaxTopicSize::Unlimited))
+                .await?
+                .map_err(|e| Stop::Inconclusive(e.to_string()))?;
+            timed("create_group", w.ctl.create_consumer_group(&twin_sid(), &tid(), "ggroup", Some(6))).await?.map_err(|e| Stop::Inconclusive(e.to_string()))?;
+        }
         for c in 0..nmem {
             w.connect_member(c).await?;
         }
